@@ -41,7 +41,7 @@ def main():
             tests = "-"
             if run_tests:
                 r = subprocess.run(["/venv/bin/python", "-m", "pytest", "-q", "-p", "no:cacheprovider",
-                                    "--continue-on-collection-errors", "-q"], cwd=tree, capture_output=True, text=True,
+                                    "--continue-on-collection-errors"], cwd=tree, capture_output=True, text=True,
                                    env=dict(os.environ, PYTHONPATH=tree))
                 summ = [l for l in r.stdout.splitlines() if " passed" in l] or ["?"]
                 tests = "tests-pass" if ("719 passed" in summ[-1] and "failed" not in summ[-1]) else "TESTS-FAIL(%s)" % summ[-1][:40]
